@@ -96,12 +96,26 @@ def constraint_edit(spec: Any, pos: Dict[str, Any], doc: Any, a: int) -> Optiona
     if r.len and kind == "bytearray":
         return ("excluded:bytes-length", None)
     if r.patterns and kind == "str":
-        for cand in ["\u0001", "!" + cur, cur + "\u0001", "é\u0001", ""]:
-            if any(re.match(p, cand) is None for p in r.patterns):
-                options.append(("string-outside-pattern", cand))
-                break
+        # violate ONE chosen pattern, keeping the other constraints satisfied where the pool allows it
+        i = a % len(r.patterns)
+        target = r.patterns[i]
+        others = [p for j, p in enumerate(r.patterns) if j != i]
+        pool = list(schemakit.GENERIC) + [cur + "!", "!" + cur, cur.upper(), cur + cur, "\u0001"]
+        for f in spec.fns:
+            pool += list(f.examples)
+        exact = [c for c in pool if re.match(target, c) is None and all(re.match(p, c) for p in others)
+                 and (not r.len or lo <= len(c) <= (hi if hi is not None else 10 ** 9))]
+        loose = [c for c in pool if re.match(target, c) is None]
+        if exact:
+            options.append((f"string-outside-pattern-{min(i, 2)}-of-{min(len(r.patterns), 3)}", exact[a % len(exact)]))
+        elif loose:
+            options.append(("string-outside-pattern", loose[a % len(loose)]))
     if not options:
         return None
+    # pattern edits are the rarest: prefer them half of the time
+    pat = [o for o in options if o[0].startswith("string-outside-pattern")]
+    if pat and a % 2 == 0:
+        options = pat
     name, val = options[a % len(options)]
     return name, _set(doc, pos["path"], val)
 
@@ -167,7 +181,7 @@ def evaluate(case: Dict[str, Any], base: Any, ctx: Any = None) -> List[Tuple[str
             a, b = edits[idx % len(edits)] if edits else (0, 0)
             todo = []  # type: List[Tuple[str, Any, bool]]
             pos = positions(spec, prop_refs, cp_refs, neutral)
-            for k in range(min(3, len(pos))):
+            for k in range(min(6, len(pos))):
                 ps = pos[(a + k) % len(pos)]
                 ce = constraint_edit(spec, ps, doc, b + k)
                 if ce is not None:
